@@ -81,25 +81,33 @@ def look {α : Type} [DecidableEq α] (r : Option α) (expected : α) : String :
   | none => "x"
   | some a => flag (a = expected)
 
-def showColl (od : OD) (c : Coll) : String :=
+/-- the sub-indices every array is asked for when the operation does not name its own -/
+def defaultProbes : List Nat := [2, 254, 255, 256]
+
+/-- `2,20,21,254` → sub-indices to ask every array for -/
+def parseProbes (s : String) : Option (List Nat) :=
+  if s = "-" then some [] else (s.splitOn ",").mapM (·.toNat?)
+
+def showColl (od : OD) (c : Coll) (probes : List Nat := defaultProbes) : String :=
   let subs := (sortBy (fun a b => a.1 < b.1) c.subs).map fun p => showVar p.2
   let names := (sortBy (fun a b => strLt a.1 b.1) c.names).map fun p =>
     s!"{esc p.1}>{p.2.subindex}{flag (dictGet p.2.subindex c.subs = some p.2)}"
   let probes := if c.isArray then
-      "P[" ++ String.intercalate "|" ([2, 255, 256].map fun k => showOpt showVar (c.getItem (.idx k))) ++ "]"
+      "P[" ++ String.intercalate "|" (probes.map fun k => showOpt showVar (c.getItem (.idx k))) ++ "]"
     else "P[]"
   let memberLooks := (sortBy (fun a b => a.1 < b.1) c.subs).map fun p =>
     look (c.getItem (.name p.2.name)) p.2 ++
-    look (od.getItem (.name (c.name ++ '.' :: p.2.name))) (.var p.2)
+    look (od.getItem (.name (c.name ++ '.' :: p.2.name))) (.var p.2) ++
+    look (c.getItem (.idx p.1)) p.2
   (if c.isArray then "A{" else "R{") ++
     String.intercalate ";" [esc c.name, toString c.index, showOpt (fun s => "=" ++ esc s) c.storage,
       "S[" ++ String.intercalate "|" subs ++ "]", "N[" ++ String.intercalate "," names ++ "]", probes,
       "M[" ++ String.join memberLooks ++ "]"] ++ "}"
 
-def showObj (od : OD) (o : Obj) : String :=
+def showObj (od : OD) (o : Obj) (probes : List Nat := defaultProbes) : String :=
   (match o with
    | .var v => "V{" ++ showVar v ++ "}"
-   | .coll c => showColl od c) ++ "L" ++ look (od.getItem (.name o.name)) o
+   | .coll c => showColl od c probes) ++ "L" ++ look (od.getItem (.name o.name)) o
 
 def showDevVal : DevVal → String
   | .str s => "s" ++ esc s
@@ -108,8 +116,8 @@ def showDevVal : DevVal → String
 
 def listOr (l : List String) (sep : String) : String := if l.isEmpty then "-" else sep.intercalate l
 
-def showOD (od : OD) : String :=
-  let objs := od.iter.filterMap fun i => (od.byIndex i).map (showObj od)
+def showOD (od : OD) (probes : List Nat := defaultProbes) : String :=
+  let objs := od.iter.filterMap fun i => (od.byIndex i).map (showObj od · probes)
   let names := (sortBy (fun a b => strLt a.1 b.1) od.names).map fun p =>
     match od.deref p.2 with
     | some o => s!"{esc p.1}>{o.index}{flag (dictGet o.index od.indices = some p.2)}"
@@ -123,8 +131,9 @@ def showOD (od : OD) : String :=
     "O=" ++ listOr objs "/",
     "T=" ++ listOr names ","]
 
-def showResult : Option OD → String
-  | some od => showOD od
+def showResult (r : Option OD) (probes : List Nat := defaultProbes) : String :=
+  match r with
+  | some od => showOD od probes
   | none => "err"
 
 end Canopen.Driver.Eds
